@@ -22,7 +22,7 @@ func init() {
 			}
 			return 24000
 		},
-		Rule: "case = one (state recipe, operation): the state (fully persisted and re-opened / persisted with a dirty in-memory path / in memory only / one delete away from a shrink / just grown; bf 2-16; int, string, user and struct keys - struct keys marshal for both layer and order) is rebuilt from its seed for every run; a counting pass records how many Load, KeyCompare and Marshal calls the operation (Insert new/update, Delete, Get, Iter, SeekIter, DiffIter, DiffLinks, Clone, Cursor+Ceil+Forward+Backward) makes; then for EVERY index i of each kind (quick: first 24 per kind; thorough: first 80, plus sampled pairs) the i-th call is made to fail; if the operation returns an error, the full dump, Size and Height read with faults cleared must equal the pre-state and the same call must then succeed with the model's normal result; operations that absorb the fault (return nil) or panic under the fault are counted, not judged; non-trivial = a fault that was hit and surfaced as an error; distinct by (state, op, kind, index)",
+		Rule: "case = one (state recipe, operation): the state (fully persisted and re-opened / persisted with a dirty in-memory path / in memory only / one delete away from a shrink / just grown / a high-layer key whose left child alone is a private in-memory node; bf 2-16; int, string, user and struct keys - struct keys marshal for both layer and order) is rebuilt from its seed for every run; a counting pass records how many Load, KeyCompare and Marshal calls the operation (Insert new/update, Delete, Get, Iter, SeekIter, DiffIter, DiffLinks, Clone, Cursor+Ceil+Forward+Backward) makes; then for EVERY index i of each kind (quick: first 24 per kind; thorough: first 80, plus sampled pairs) the i-th call is made to fail; if the operation returns an error, the full dump, Size and Height read with faults cleared must equal the pre-state and the same call must then succeed with the model's normal result; operations that absorb the fault (return nil) or panic under the fault are counted, not judged; non-trivial = a fault that was hit and surfaced as an error; distinct by (state, op, kind, index)",
 		Assumptions: []string{
 			"the statement only covers calls that RETURN an error; faults swallowed by the operation and panics raised from a failing callback are outside it and are reported as observations (absorbed_faults, panics_under_fault)",
 		},
@@ -47,6 +47,8 @@ type c12state struct {
 	other *mast.Mast // an older version for diffs
 	om    *kinds.Model
 	pool  []interface{}
+	// target: for the "dirty_left_of_target" recipe, the high-layer key to delete
+	target interface{}
 }
 
 // buildC12 deterministically rebuilds the state of a recipe.
@@ -111,6 +113,36 @@ func buildC12(seed uint64, cfg kinds.Cfg, recipe int) (*c12state, error) {
 		if err == nil && r.Bool() {
 			err = s.persist(e, true)
 		}
+	case 5: // a high-layer key whose LEFT child is a private in-memory node (something deep on its
+		// left was modified after the reload) while the rest of both neighbouring subtrees is only in the store
+		if err = s.persist(e, true); err != nil {
+			break
+		}
+		var cands []int
+		for i := 1; i+1 < s.M.Len(); i++ {
+			l := cfg.KK.Layer(s.M.Keys[i], cfg.BF)
+			if l >= 1 && cfg.KK.Layer(s.M.Keys[i-1], cfg.BF) < l && cfg.KK.Layer(s.M.Keys[i+1], cfg.BF) < l {
+				cands = append(cands, i)
+			}
+		}
+		if len(cands) == 0 {
+			break
+		}
+		// prefer the highest layers
+		best := cands[r.Intn(len(cands))]
+		for _, i := range cands {
+			if cfg.KK.Layer(s.M.Keys[i], cfg.BF) > cfg.KK.Layer(s.M.Keys[best], cfg.BF) && r.Chance(2, 3) {
+				best = i
+			}
+		}
+		st.target = s.M.Keys[best]
+		lt := cfg.KK.Layer(st.target, cfg.BF)
+		j := best - 1
+		for j > 0 && cfg.KK.Layer(s.M.Keys[j-1], cfg.BF) < lt {
+			j--
+		}
+		// j = smallest key of the target's left subtree: touching it dirties the left child's path, not its last child
+		err = s.ins(e, s.M.Keys[j], diffValOf(cfg.VK, r, s.M.Vals[j]))
 	default: // just grown: insert until the height went up, then persist+reopen half of the time
 		h0 := s.T.Height()
 		for i := 0; err == nil && s.T.Height() == h0 && i < 200; i++ {
@@ -246,9 +278,12 @@ func runC12(c *fw.C) {
 	if r.Chance(1, 6) {
 		cfg.Cache = "big"
 	}
-	recipe := c.Idx % 5
+	recipe := c.Idx % 6
 	seed := r.U64()
-	opKind := c12ops[(c.Idx/5)%len(c12ops)]
+	opKind := c12ops[(c.Idx/6)%len(c12ops)]
+	if recipe == 5 && c.Idx%2 == 1 {
+		opKind = "delete" // the recipe is built around deleting its target key
+	}
 	st, err := buildC12(seed, cfg, recipe)
 	if err != nil {
 		c.Obs("state_build_failed", 1)
@@ -280,10 +315,15 @@ func runC12(c *fw.C) {
 		}
 		j := r.Intn(st.m.Len())
 		op.key, op.val = st.m.Keys[j], st.m.Vals[j]
+		if st.target != nil {
+			if v, ok := st.m.Get(st.target); ok {
+				op.key, op.val = st.target, v
+			}
+		}
 	default:
 		op.key = st.pool[r.Intn(len(st.pool))]
 	}
-	recName := []string{"persisted", "persisted_dirty_path", "memory", "before_shrink", "grown"}[recipe]
+	recName := []string{"persisted", "persisted_dirty_path", "memory", "before_shrink", "grown", "dirty_left_of_target"}[recipe]
 	c.Desc("cfg{%s} state=%s(seed %d) entries=%d h=%d op=%s", cfg, recName, seed, st.m.Len(), st.t.Height(), op)
 	// independent predicates used to classify witnesses
 	pre := st.m.Clone()
